@@ -767,6 +767,11 @@ class SA:
     __hash__ = None
 
     def __invert__(self):
+        if self.kind == "i":
+            # numpy: bitwise not of an integer array, ~x == -x - 1 (an int8 0/1 flag read back from a file is NOT negated logically)
+            return SA(_map(lambda x: -(int(x) if isinstance(x, (bool, rnp.bool_)) else x) - 1, self.a), "i")
+        if self.kind == "f":
+            raise TypeError("ufunc 'invert' not supported for the input types")
         return SA(_map(lambda x: (not x) if isinstance(x, (bool, rnp.bool_)) else ~SB.of(x), self.a), "b")
 
     def _logic(self, o, op):
